@@ -100,7 +100,7 @@ def run(chk):
             raise RuntimeError('harness error on %s: %s %s' % (r['spec'], r['harness_error'], r.get('tb')))
         cid = dict(pitcheck.case_id(r), kind='net')
         if r.get('construct_error'):
-            chk.violation('C07:constructor-raises', 'PIT() raises: ' + r['construct_error'], cid)
+            chk.violation('C07:' + pitcheck.raise_kind(r), 'PIT() raises: ' + r['construct_error'], cid)
             continue
         prog = r['prog']
         chk.count(tuple(prog) + (r['spec']['fold_bn'], r['spec']['train_mode']),
